@@ -103,6 +103,7 @@ func Reset() {
 	On = false
 	Exploring = false
 	Fine = false
+	LastLog = nil
 	Prefix = nil
 	Trace = nil
 	Diverged = ""
